@@ -65,7 +65,7 @@ def plan(tier, seed):
     if tier == "quick":
         n, per = 16, 70
     else:
-        n, per = 64, 700
+        n, per = 64, 1000
     return [{"seed": seed * 1000 + i, "n": per, "tier": tier} for i in range(n)]
 
 
